@@ -3,9 +3,9 @@
   the event) and C19's `Ctf.factorize` (the model of `do_counterfactual_factor_factorization`, which drops them):
 
     `line2_factorize`          when line 2 succeeds, `factorize` succeeds on the same event, on the same ancestors, and
-                               its ctf-factors are, IN THE SAME ORDER, the variable sets of the factors of line 2;
-    `summedNames_eq_range`     the names Algorithm 2 sums over are the range of the sum of `factorize`;
-    `event_vars_in_ancestors`  a minimised event variable is a member of the accumulated ancestors.
+                               its ctf-factors are, IN THE SAME ORDER, the variable sets of the factors of line 2.
+
+  (`summedNames_eq_range`, `event_vars_in_ancestors`, `simplify_output_minimal` are in Y0.Lemmas.CtfTrFactorize2.)
 
   Tools: `dedup'` keeps first occurrences (`l2f_dedup'_filter`, `l2f_dedup'_map_dedup'`); the grouping loop run on a list
   and on its image under a name-preserving map stay related entry by entry (`GroupRel`, `groupRel_fold`); an element
